@@ -472,14 +472,35 @@ fn render_xff(es: &[(String, bool, bool)], n: usize, plain: bool) -> String {
 }
 
 /// `xff2`: a second X-Forwarded-For line (random sessions only).  Every fifth request carries 30..90 other fields
-/// with the X-Forwarded-For line(s) somewhere among them.
+/// with the X-Forwarded-For line(s) somewhere among them, every 55th 100..300; two requests in three carry other
+/// forwarding-related fields (Forwarded, X-Real-IP, ...) naming unlisted addresses before or after it.
 /// `plain`: `Name: value` with one blank after the colon.
 fn request_bytes(uri: &str, xff: Option<&str>, xff2: Option<&str>, keep_alive: bool, n: usize, plain: bool) -> Vec<u8> {
     let mut s = format!("GET {} HTTP/1.1\r\nHost: c19.test\r\n", uri);
     if n % 2 == 1 {
         s.push_str("User-Agent: c19-harness\r\nAccept: */*\r\n");
     }
-    let (before, between, after) = if n % 5 == 0 { (10 + n % 37, n % 7, 20 + n % 41) } else { (0, 0, 0) };
+    // "whatever headers it sends": now and then the X-Forwarded-For line sits behind 100..300 other fields (beyond any
+    // round number a parser might stop storing fields at: 100, 128, 256) ...
+    let (before, between, after) = if n % 55 == 0 { (97 + (n / 55) % 7 * 33 + n % 5, n % 7, 3 + n % 9) }
+        else if n % 5 == 0 { (10 + n % 37, n % 7, 20 + n % 41) } else { (0, 0, 0) };
+    // ... and other fields that speak about forwarding accompany it, all naming addresses that no list of the harness
+    // contains (TEST-NET-3): they can neither add a listed address nor take the listed one of X-Forwarded-For away
+    let other_fwd = |k: usize| -> String {
+        match k % 8 {
+            0 => "Forwarded: for=203.0.113.9\r\n".to_string(),
+            1 => "Forwarded: for=203.0.113.9;proto=http;by=203.0.113.1, for=\"[2001:db8::17]:4711\"\r\n".to_string(),
+            2 => "X-Real-IP: 203.0.113.10\r\n".to_string(),
+            3 => "forwarded: For=203.0.113.11\r\nVia: 1.1 proxy.example\r\n".to_string(),
+            4 => "X-Client-IP: 203.0.113.12\r\nTrue-Client-IP: 203.0.113.12\r\n".to_string(),
+            5 => "X-Forwarded: for=203.0.113.13\r\nForwarded-For: 203.0.113.13\r\n".to_string(),
+            6 => "X-Forwarded-For-Original: 203.0.113.14\r\nX-Originating-IP: 203.0.113.14\r\n".to_string(),
+            _ => "Forwarded: for=unknown\r\nX-Forwarded-Proto: https\r\nX-Forwarded-Port: 443\r\n".to_string(),
+        }
+    };
+    if n % 3 == 1 {
+        s.push_str(&other_fwd(n / 3));
+    }
     for i in 0..before {
         s.push_str(&format!("X-Filler-{}: {}\r\n", i, "v".repeat(1 + i % 40)));
     }
@@ -491,6 +512,9 @@ fn request_bytes(uri: &str, xff: Option<&str>, xff2: Option<&str>, keep_alive: b
     }
     if let Some(x) = xff2 {
         s.push_str(&format!("{}{}{}\r\n", XFF_NAMES[(n / 2) % XFF_NAMES.len()], if plain { ": " } else { NAME_SEP[n % NAME_SEP.len()] }, x));
+    }
+    if n % 3 == 2 {
+        s.push_str(&other_fwd(n / 3));
     }
     for i in 0..after {
         s.push_str(&format!("X-Tail-{}: {}\r\n", i, i));
